@@ -84,6 +84,13 @@ if os.path.isdir(_cd):
         if _f.endswith(".json"):
             CLAIMED[_f[:-5]] = json.load(open(os.path.join(_cd, _f)))
 
+# props/claims/HOLD.json = {"CXX": "reason"}: checks that exist but are not claimed at this commit (e.g. being adapted after a merge)
+_hold = os.path.join(_cd, "HOLD.json")
+HOLD = json.load(open(_hold)) if os.path.exists(_hold) else {}
+CLAIMED.pop("HOLD", None)
+for _k, _r in HOLD.items():
+    CLAIMED.pop(_k, None); NOT_YET[_k] = _r
+
 def main():
     props = [json.loads(l) for l in open(os.path.join(VERIF, "properties.jsonl"))]
     checks = []; na = []
